@@ -827,6 +827,29 @@ impl Gen {
         h.step(Op::Vamm { sender, vamm: v, msg }, r)
     }
 
+    /// Hostile input: accounts that are not the margin engine ask the insurance fund for its collateral directly
+    /// (its owner, the engine's owner, traders, strangers). The fund pays the engine only, on the engine's request.
+    pub fn rand_forged_insurance_withdraw(&mut self, h: &mut History, r: &mut Report) -> Rc<Step> {
+        let token = match &h.w.cw20 {
+            None => margined_common::asset::AssetInfo::NativeToken { denom: DENOM.into() },
+            Some(a) => margined_common::asset::AssetInfo::Token { contract_addr: a.clone() },
+        };
+        let sender = match self.rng.below(6) {
+            0 | 1 => h.last.ins_owner.clone(),
+            2 => h.last.eng.owner.clone(),
+            3 => self.pick_trader().to_string(),
+            4 => "liquidator".to_string(),
+            _ => "stranger".to_string(),
+        };
+        let bal = h.last.bal(h.w.insurance.as_str());
+        let amount = match self.rng.below(4) {
+            0 => 1,
+            1 => bal,
+            _ => self.rng.log_uniform(1, bal.max(2)),
+        };
+        h.step(Op::Insurance { sender, msg: ins::ExecuteMsg::Withdraw { token, amount: u(amount) } }, r)
+    }
+
     /// Hostile input: a Liquidate naming a trader / vAMM with surrounding whitespace must not be resolved
     /// to the un-padded account.
     pub fn rand_padded_liquidate(&mut self, h: &mut History, r: &mut Report) -> Rc<Step> {
@@ -848,9 +871,10 @@ impl Gen {
 
     pub fn rand_op(&mut self, h: &mut History, r: &mut Report) -> Rc<Step> {
         if self.rng.chance(self.prof.alias_pct, 1000) {
-            return match self.rng.below(4) {
+            return match self.rng.below(5) {
                 0 => self.rand_forged_vamm_call(h, r),
                 1 => self.rand_padded_liquidate(h, r),
+                2 => self.rand_forged_insurance_withdraw(h, r),
                 _ => self.rand_alias_attack(h, r),
             };
         }
@@ -997,6 +1021,22 @@ impl Gen {
         let caller = *self.rng.pick(&["liquidator", "liquidator", "stranger", victim]);
         // keepers must stay able to liquidate while trading is paused (C07 / C14): one attempt in six is made
         // with the engine paused by its pauser, on whichever liquidation path the position is on
+        // hostile variant (C10): before the real attempt, somebody names a re-split of (vAMM address ++ victim) - a
+        // pair that hashes to the victim's position key - hoping to have the under-margined victim liquidated
+        // through a call that names another (vamm, trader) pair
+        if victim.len() >= 4 && self.rng.chance(self.prof.alias_pct, 400) {
+            let k = self.rng.range(1, victim.len() as u64 - 3) as usize;
+            let va = Self::vaddr(h, v);
+            let (fake_vamm, fake_trader) = if self.rng.chance(1, 2) {
+                (format!("{}{}", va, &victim[..k]), victim[k..].to_string())
+            } else {
+                // split inside the vAMM's address instead
+                let j = self.rng.range(3, va.len() as u64 - 1) as usize;
+                (va[..j].to_string(), format!("{}{}", &va[j..], victim))
+            };
+            let op = Op::Engine { sender: "stranger".into(), msg: eng::ExecuteMsg::Liquidate { vamm: fake_vamm, trader: fake_trader, quote_asset_limit: u(0) }, funds: 0 };
+            self.do_step(h, r, op);
+        }
         let pause_around = self.rng.chance(1, 6) && !h.last.eng.paused;
         if pause_around {
             let pauser = h.last.eng.pauser.clone();
